@@ -67,14 +67,8 @@ CLAIMS.update({
 })
 CLAIMS.update({
  'C01': dict(
-   text='Proved (lawful ordered field / R): the per-segment winding contribution of the model (winding_inner for lines, quadratics and cubics: monotone pieces from the '
-        'extrema, half-open y rule, side test at the solved parameter) equals the signed crossing count of a rightward ray for points off the curve, '
-        'contributions are additive over split pieces, reversing a segment negates it, the path winding is the sum over segments incl. the implicit closing '
-        'line, contains = winding != 0, affine maps with det>0 keep it / det<0 negate it, and the rectangle/triangle closed forms. The solver hypothesis '
-        'is the C15 root-set theorem. Implementation decided against an exact rational winding oracle (Sturm isolation of the ray crossings) on '
-        'polygons, curves, self-intersecting and multi-contour paths, plus correspondence with the exact model.',
-   note='Jordan-curve topology is not formalised: "winding number" is the crossing sum. One known finding (degree-raised cubic: root cause in solve_cubic, C15). '
-        'Points closer than the stated band to the boundary are excluded as in the property.',
+   text='Proved about the model of winding (Kurbo/Curve.lean), see the header of lean/Proofs/C01.lean for the exact list: the line branch of winding_inner (x-extent early outs included) is the half-open crossing indicator of the leftward ray for EVERY segment and point; on polyline paths pathWinding is the sum of these indicators and, over R, for every list of closed polyline sub-paths (self-intersections, repeated vertices, rows through vertices included) and every point off the path it EQUALS the angle-sum (topological) winding number; reversal negates, inserting a vertex / splitting a line leaves it unchanged, additivity over sub-paths, contains = (winding != 0); for curved segments: winding = sum of winding_inner over the pieces between extrema, and on ONE y-injective piece the quad/cubic branch counts the ray crossing with the half-open rule given the solver specification of C15. The implementation (all path kinds, curved, self-intersecting, multi-contour, rows through vertices/extrema) is decided against an exact rational winding oracle (Sturm isolation of ray crossings) and compared with the exact model; reversal/split/affine metamorphic checks.',
+   note='NOT proved: curved paths as a whole (tiling of the monotone pieces, homotopy to a polygon) and the affine law - both decided by the exact oracle only. IEEE rounding is outside the theorems. One known finding (degree-raised cubic: root cause in solve_cubic, C15); two defects of the pinned tree repaired (rows through vertices / end points).',
    ref='6 / C01'),
  'C03': dict(
    text='Proved: the three Gauss-Legendre tables of the model (8/16/24 points, regenerated from common.rs on every run and re-proved equal: GenEquivGL) are symmetric, '
@@ -86,43 +80,24 @@ CLAIMS.update({
         'ln/sqrt/hypot are libm calls, trusted to 1 ulp.',
    ref='6 / C03'),
  'C05': dict(
-   text='Proved (lawful ordered field; R with real sqrt/hypot): flattening emits MoveTo/LineTo/ClosePath only, keeps every sub-path start, segment end point and '
-        'ClosePath exactly (structure theorem for every element list), the number of pieces of a quadratic follows the parabola-integral count, the vertices lie '
-        'on the source curve at increasing parameters, the sagitta bound of one parabola piece, scale covariance of the subdivision count; cubic -> quadratic '
-        'budget split. Implementation decided against an exact distance oracle (every chord vs. the exact curve, Bernstein-certified deviation bound <= tolerance) '
-        'and compared with the exact/Float models.',
-   note='The approx_parabola_integral / inverse are rational approximations: the proved bound is for the model\'s parametrisation, the end-to-end tolerance for all '
-        'quadratics is decided by the oracle. glibc hypot is not correctly rounded: near-duplicate end vertices are deduplicated before comparison.',
+   text='Proved (header of lean/Proofs/C05.lean): for EVERY scalar type (Float included) flatten emits MoveTo/LineTo/ClosePath only, is one run per input element in order with the state (current point, sub-path start) threaded through, passes move/line/close through unchanged, ends every curve run with LineTo of the STORED end point, emits exactly max 1 ceil(val/2 sqrt tol) lines per quadratic, every vertex is eval t of the source quadratic (of the to_quads(tol/10) piece for cubics); lawful scalars: the parameters are determine_subdiv_t(i/n), degenerate (collinear) quadratics give one line; over R: the parabola-integral maps are strictly monotone, the vertex parameters increase, scaling path and tolerance by k>0 scales the output. The tolerance bound itself (every chord within tolerance of the curve) is decided on the implementation by an exact distance oracle (Bernstein-certified deviation of each chord from the exact curve) and by comparison with the exact/Float models.',
+   note="NOT proved: chord-curve distance <= tolerance (the parabola-integral heuristic is 'not absolutely guaranteed' in kurbo's own words): oracle only. glibc hypot is not correctly rounded, so near-duplicate end vertices are deduplicated before the Float comparison. One defect of the pinned tree repaired.",
    ref='6 / C05'),
  'C08': dict(
-   text='Proved (lawful ordered field, quadratic-solver spec discharged over R by the C15 theorems): extrema() returns exactly the interior parameters where a '
-        'coordinate derivative vanishes, sorted, at most 4; extrema_ranges partitions [0,1]; on each range both coordinates are monotone; bounding_box contains '
-        'eval(t) for every t in [0,1] and is tight (each side attained); control box contains the bounding box; union over segments for paths. '
-        'Implementation decided against exact rational extrema and bounding boxes; correspondence with the exact model on dyadic grids.',
-   note='Tightness for cubics whose derivative has a negligible leading coefficient inherits the C15 known finding (box may miss by the solver error). IEEE compared with tolerance.',
+   text="Proved (header of lean/Proofs/C08.lean; lawful ordered field, containment over R): extrema of a quadratic are exactly the interior zeros of x' or y' (sound, complete, sorted, at most 2); the same for cubics (at most 4) with the quadratic-solver specification, which is discharged over R by the C15 theorem (unconditional corollaries via Proofs/Lemmas/Discharge.lean); extrema_ranges are the consecutive pairs of 0,t1..tn,1 (also for Float); on every range each coordinate is monotone or antitone; bounding_box contains eval t for all t in [0,1] (all three kinds, paths) and is tight (every side attained, unconditional); control box contains every curve point and the bounding box. Implementation decided against exact rational extrema/boxes and compared with the exact model on dyadic grids.",
+   note="The lists are weakly increasing (a common root of x' and y' is listed twice, as in the crate). [MoveTo p] alone: bounding box is the zero rect (as in the crate; excluded). Nothing about Float rounding in the theorems: decided by the oracle at tolerance.",
    ref='6 / C08'),
  'C09': dict(
-   text='Proved (lawful ordered field / R): Line::nearest is the exact projection (clamped), distance_sq is the squared distance at the returned t, the returned t is in '
-        '[0,1]; for quadratics the candidate set (roots of the cubic orthogonality condition + end points) contains the true minimiser, hence nearest is the minimum '
-        'over the curve given the solver spec; cubic nearest = minimum over the to_quads pieces with the error budget of C17; PathSeg dispatch. Implementation '
-        'decided against an exact distance oracle (Sturm-isolated critical points of the squared distance) and model correspondence.',
-   note='One known finding (straight curves: collinear control polygon sends the cubic solver into the negligible-leading-coefficient regime). ToQuadsWithin hypothesis '
-        'is discharged by C17 toQuads_error_bound for the model.',
+   text='Proved (header of lean/Proofs/C09.lean): Line::nearest returns t in [0,1], distance_sq = |p - eval t|^2 and it is the minimum over [0,1] (all branches, any lawful field); the coefficients QuadBez::nearest hands to solve_cubic are those of 1/4 d/dt|p - q(t)|^2; the result is always one of the evaluated candidates with t in [0,1] (any Scalar, also Float: the unwrap_or default is unreachable); over R with the real sqrt/cbrt/sin/cos/atan2 (C15 solver theorems) the returned squared distance IS the minimum over the quadratic (need_ends rule shown sound); CubicBez::nearest = first best piece of to_quads(a), pieces tile [0,1], and |sqrt distance_sq - dist| <= a, |p - c(t)| <= dist + 2a given the C17 to_quads bound; PathSeg dispatch. Implementation decided against an exact distance oracle (Sturm-isolated critical points) and compared with the model.',
+   note='The C17 bound enters as hypothesis ToQuadsWithin (converted from toQuads_error_bound). Nothing about Float rounding in the theorems. One known finding (straight curves with collinear control polygon: the cubic solver is in its negligible-leading-coefficient regime, C15).',
    ref='6 / C09'),
  'C10': dict(
-   text='Proved: outline structure of Rect, RoundedRect, Circle, Ellipse, Arc, CircleSegment, Triangle, Line (element kinds, counts, closedness, start points) for every '
-        'input; quarter/arc segment control points lie on the tangent lines with the 4/3 tan(theta/4) arm; the radial error of one arc piece is bounded by the '
-        'closed-form (1-cos)^3-type bound used to choose n, so every outline point is within tolerance of the ideal circle (circle_within_tolerance) and arcs '
-        'alike; ellipse = affine image of the unit circle outline. Implementation decided against exact geometry oracles (distance of outline samples from the '
-        'ideal curve, containment/area/perimeter cross checks) and Float-model correspondence.',
-   note='sin/cos/tan are specified by their defining identities over R (LawfulTrig hypotheses), not computed. Arc from SVG parameters and Affine*Arc are checked by oracle only.',
+   text='Proved (header of lean/Proofs/C10.lean): for EVERY scalar type the outline structure of line/quad/cubic/rect/triangle (exact reproduction), arcs (exactly n CurveTo, piece k from angle theta_k to theta_k+1, joined end to end, never panics), circles (MoveTo, n CurveTo, ClosePath; returns exactly to its start), rounded rectangles, circle segments and ellipses; over R with real sin/cos/tan/pi: every element end point lies on the ideal ellipse/circle, control arms are arm_len times the derivative, one traversal (accumulated angle = start + sweep, delta_th n = 2 pi), closedness of every closed shape, and the TOLERANCE claim for circles - for every circle and every T>0 every point of the outline is within T of the ideal circle (both branches; exact rational certificates) - and for circular arcs with R/T >= 13997.2; Affine::svd diagonalises. Implementation decided against exact geometry oracles (outline samples vs ideal shape, one traversal by exact winding/area) and Float-model correspondence.',
+   note='NOT proved: the tolerance claim for circular arcs with R/T < 13997.2 (margins ~1e-4 relative) and for genuine ellipses (kurbo scales by the larger radius): decided by the oracle. Trigonometric functions are specified (LawfulTrig), not computed. One defect of the pinned tree repaired (circle segment).',
    ref='6 / C10'),
  'C11': dict(
-   text='Proved (lawful ordered field / R): area, perimeter, winding, contains and bounding_box closed forms of Rect, Triangle, RoundedRect, Circle, CircleSegment, Ellipse '
-        'agree with each other and with the definitions (e.g. winding != 0 <-> strictly inside for points off the boundary; rounded-rect corner quadrant test = '
-        'distance test; triangle winding sign = orientation; areas scale with det under affine maps; bounding boxes contain the shape). Implementation decided '
-        'against exact rational predicates and against its own outline (C10) through the exact winding/area oracles.',
-   note='Ellipse perimeter (AGM series) is compared with a high-precision quadrature, not proved. pi is uninterpreted in area formulas.',
+   text="Proved (header of lean/Proofs/C11.lean; lawful ordered field): Rect winding = path winding of its own outline for EVERY point (boundary included, any corner order), half-open tiling theorems (interval, two tiles, m x n grid: every point in exactly one tile), Rect area/bbox/perimeter = those of the outline, tightness; Triangle winding = path winding off the edges for every non-degenerate triangle (both orientations), area/bbox/perimeter; RoundedRect: from_rect normalises, winding = 1 iff the point is in the ideal rounded rectangle (four different radii), bbox tight, area/perimeter formulas; Circle/Ellipse/CircleSegment: winding iff the open ideal set, bbox tight, area/perimeter with symbolic pi. Implementation decided by comparing every closed form with the exact winding/area/bbox oracles run on the shape's own outline (C10).",
+   note="Degenerate triangle (zero area): closed form returns 1 where the outline gives 0 - outside the property's quantifier, documented, not flagged. Ellipse perimeter (AGM) is compared with a high-precision quadrature, not proved. Curved shapes are compared with the IDEAL set in the theorems and with the outline by the oracle.",
    ref='6 / C11'),
  'C13': dict(
    text='Dash iterator modelled state for state (NeedInput/ToStash/Working/FromStash, stash, close-path handling, phase reset) and compared element for element with '
@@ -147,11 +122,8 @@ CLAIMS.update({
    note='Decimal -> f64 conversion (parse::<f64>) and arc geometry are outside the theorems (arc flag/number lexing is inside). Full parse-render induction over command lists is not proved; step lemmas + composed instance.',
    ref='6 / C16'),
  'C17': dict(
-   text='Proved (lawful ordered field; R for sqrt): to_quads piece count formula and continuity (consecutive pieces share end points, first/last = cubic end points), '
-        'the error of each quadratic piece is bounded by the sqrt(3)/36 * |third difference| / n^3 bound (cubic_s_bound tight), hence within accuracy; approx_spline '
-        'end points and implied on-curve points, fit_inside soundness, cubics_to_quadratic_splines same length for all. Implementation decided against exact '
-        'Hausdorff-type deviation oracles and model correspondence.',
-   note='The to_quads bound is for corresponding parameters (upper bound of Hausdorff distance). Float rounding of n (ceil of a power 1/6) compared at tolerance.',
+   text='Proved (header of lean/Proofs/C17.lean): to_quads has exactly toQuadsN >= 1 pieces, piece i covers [i/n,(i+1)/n], consecutive pieces share end points which lie on the cubic, first/last = cubic end points (any Scalar, also Float); the error identity quad_i(s) - cubic(t) = -D (t1-t0)^3 s(s-1/2)(s-1), the optimal constant 1/432, hence every piece within a of the cubic when |D|^2 <= 432 n^6 a^2, and over R (powf = rpow, as usize = floor) the computed n satisfies that inequality: unconditional accuracy; fit_inside is sound and fuel-monotone; split_into_n all branches; try_approx_quadratic/approx_spline(_n)/cubics_to_quadratic_splines end points, control-point counts, common order <= 101 and accuracy; QuadSpline::to_quads implied points and continuity. Implementation decided against exact deviation oracles and model correspondence.',
+   note='Distances at corresponding parameters (an upper bound of Hausdorff/Frechet distance). No completeness claim (fit_inside may say false for curves inside). Nothing about IEEE rounding in the theorems; the saturating `as usize` case is excluded.',
    ref='6 / C17'),
  'C19': dict(
    text='Proved: the table of define_float_funcs! rows extracted from common.rs on every run equals the pinned table (GenEquivFF), every std method is mapped to the libm '
